@@ -48,6 +48,8 @@ def creds (o : Opt) : Option (String × String) :=
 def evalAtom (o : Opt) (u p : String) : Atom → Bool
   | .passOnly => p != "" && u == ""
   | .hasUser => u != ""
+  | .passNonEmpty => p != ""      -- only used if the source nests the two tests
+  | .userEmpty => u == ""
   | .hasName => o.clientName != ""
   | .azInfo => o.azInfo
   | .cache => !o.disableCache
